@@ -7,38 +7,72 @@ resolution code distinguishes: O groups that are walks over the edges with each 
 (`e+`) or backwards (`e-`), as first or later item, with segments and edges elided, read from either end, nested
 through `p+`/`p-` and extended on both sides, perturbed into non-contiguous lists; U groups over segments, edges,
 paths, sets (also one defined later), gaps and undefined names (one fixed document of the sweep and the random
-GFA2 documents).  In a random sequence one call in four first picks a catalogue family (Gfa, record type) and then
-an entry, so that the few entries of the group lines are exercised as often as the many entries of the segments.
+GFA2 documents); GFA1 paths that are linear, of a single segment and circular (as many overlaps as segments, the
+last link leading back to the first segment: one path of the sweep, 30% of the random GFA1 documents); documents of
+the rGFA dialect (one fixed document of the sweep, one random case in twelve: links with none, some or all of the
+optional SR/L1/L2 tags, 22% perturbed into documents the rGFA validation refuses).
+In a random sequence one call in four first picks a catalogue family (Gfa, record type) and then
+an entry, so that the few entries of the group lines are exercised as often as the many entries of the segments; one
+call in four first picks a clause of the property (validation, cloning, comparison, complement and alignment,
+resolution, search, topology, conversion, reads), then one of the distinct entries of that clause, then the line or
+object it is applied to (Gfa.validate is then asked as often as the validation of some field of some line).
 Around every call a deep textual snapshot is
-taken: str(gfa), str of every line (virtual ones too), repr of every argument, str/repr of every value object
-(alignment, position, oriented line, array) returned so far.  Every call is made twice: the two answers must
-render equal.
+taken: str(gfa), str of every line (virtual ones too), repr of every argument that is kept between calls (the
+criteria dictionaries of `Gfa.select(same dict)`), str/repr of every value object (alignment, position, oriented
+line, array) returned so far, and the class-level table Gfa.RGFA_TAGS (which decides the answers of the validation of
+every rGFA Gfa of the process).  Every call is made twice: the two answers must render equal.
+
+Searches are asked with fresh criteria (`Gfa.select(dict)`) and with the same criteria object again and again
+(`Gfa.select(same dict)`: the name of a line that is there / is not there, with and without further criteria): the
+criteria must stay what they were and the answer the same.
+
+Operations documented to hand out a NEW object -- Line.clone ("this allows to edit the line before adding it"),
+Link.complement, CIGAR.complement -- are followed, in entries of their own, by an edit of that result: every tag
+deleted (and a new one set), every tag given another datatype, every value edited in place (lengths and codes of
+CIGAR operations, elements of arrays and JSON lists, keys of JSON objects, orientations of oriented names).  What
+the edit does to the result is not judged (errors are swallowed); the line the copy was taken from, the Gfa and
+every alignment handed out earlier must be what they were, and the same call must answer the same again.
 
 The one known intentional change (DESIGN §7 #30): at level 0 the first read of a delayed-parsing field (B/J/H tag,
 alignment) switches its written spelling to the canonical one.  It is reported under the exact signature
 `lazy-spelling`, and only when the two texts are equal after canonicalising such fields; every other change has
 the signature `mutation[<catalogue entry>]`.  A second open finding shows on the unchanged tree (KNOWN_FINDINGS
 `to_gfa2-assigns-id`): to_gfa2 / to_gfa2_s of a GFA1 link or containment without ID tag stores the generated ID in the
-source line, signatures `mutation|answer-changes[(Gfa|L|C|P).to_gfa2(_s)]`.
+source line, signatures `mutation|answer-changes[(Gfa|L|C|P).to_gfa2(_s)]`.  A change made by one of these
+conversions that is NOT explained by that finding (the lines are, up to `ID:Z:<n>` tags and their order, not the
+lines they were; anything but the lines and the set of names changed) has the signature
+`mutation[<entry>, beyond assigning IDs]` -- the conversion of a path resolves it, and a resolution that alters
+the path would otherwise hide behind the open finding.
 
 NOT CHECKED
   * Gfa.unused_name (documented to hand out a fresh name every time), Link.canonicize / make_complement and the
     other documented mutators, to_file, info (empty), enable_progress_logging;
   * whether the answers are *right* (C11, C12, C16, C17...), only that they are stable and leave no trace;
   * object identity of returned collections, ordering between two different processes;
-  * memory/caches that do not show in any written form or answer.
+  * in-place edits of objects that ARE the field of a line (the value returned by get / a field property): only the
+    results of clone / complement are edited;
+  * memory/caches that do not show in any written form or answer; class-level tables other than Gfa.RGFA_TAGS.  A
+    table the library corrupts stays corrupted for the rest of the process: only the first case that sees the change
+    reports it (a replay of that case in a new process reports it again).
 """
+import ast
+import re
+
 from harness import lib
 from harness.props import _misc as M
 
 ID = "C10"
-RULE = ("sweep: 5 fixed documents (GFA1 and GFA2, canonical and non-canonical spellings of B/J/H tags and CIGARs, virtual "
-        "lines, O/U groups with edges listed forwards and backwards, elided items, nested +/- paths, nested sets) x levels 0-3, every catalogue entry on every line it applies to, in catalogue order; random: random valid "
-        "GFA1/GFA2 graphs (2-4 segments from a 4-name pool, parallel and self edges, asymmetric CIGARs, containments, paths, "
+RULE = ("sweep: 8 fixed documents (GFA1 and GFA2, canonical and non-canonical spellings of B/J/H tags and CIGARs, virtual "
+        "lines, linear, single-segment and circular GFA1 paths, O/U groups with edges listed forwards and backwards, elided items, nested +/- paths, nested sets, "
+        "one rGFA document loaded with dialect rgfa) x levels 0-3, every catalogue entry on every line it applies to, in catalogue order; random: random valid "
+        "GFA1/GFA2 graphs (2-4 segments from a 4-name pool, parallel and self edges, asymmetric CIGARs, containments, paths (30% of the GFA1 graphs with a circular one), "
         "gaps, fragments, 0-3 O groups (random walks over the edges taken in either direction, elision, either reading end, "
         "nesting with +/-, 18% perturbed) and 0-2 U groups (segments, edges, paths, sets, gap, undefined names), custom records, "
-        "tags of all datatypes) x 40 (quick) random catalogue calls, a quarter of them on previously returned alignment/position "
-        "objects and a quarter chosen family-first.  Non-trivial: at least 10 calls were made on a state with an edge.")
+        "tags of all datatypes), 1 case in 12 an rGFA graph (dialect rgfa, 22% refused by the rGFA validation), 1 in 12 lines queued in a Gfa of unknown version, "
+        "x 40 (quick) random catalogue calls, a quarter of them on previously returned alignment/position "
+        "objects, a quarter chosen family-first and a quarter clause-first.  The catalogue asks searches with the same criteria object twice and edits "
+        "the results of clone / Link.complement / CIGAR.complement (tags deleted, retyped, values edited in place): the original must not change.  "
+        "Non-trivial: at least 10 calls were made on a state with an edge.")
 
 TAGS_CANON = "ti:i:-5\ttf:f:1.5\ttz:Z:a b\tta:A:x\ttj:J:{\"k\": [1, {\"m\": 2}]}\ttb:B:c,-1,2\tth:H:0AF1"
 TAGS_RAW = "ti:i:-5\ttf:f:1.50\ttz:Z:a b\tta:A:x\ttj:J:{\"k\":[1,{\"m\":2}]}\ttb:B:i,-1,2\tth:H:0AF1\ttc:B:f,1.50,2"
@@ -46,7 +80,9 @@ TAGS_RAW = "ti:i:-5\ttf:f:1.50\ttz:Z:a b\tta:A:x\ttj:J:{\"k\":[1,{\"m\":2}]}\ttb
 FIXED = [
     ("gfa1", ["H\tVN:Z:1.0\tzz:i:1", "H\tzz:i:2", "S\tA\tACGTAC\t" + TAGS_CANON, "S\tB\t*\tLN:i:5\tRC:i:10", "S\tC\tACG",
               "L\tA\t+\tB\t-\t2M1I\tID:Z:l1\t" + TAGS_CANON, "L\tB\t-\tC\t+\t1M1D1M", "L\tC\t+\tA\t+\t*", "L\tA\t-\tA\t-\t2M",
-              "C\tA\t+\tC\t+\t1\t2M1I\tID:Z:c1", "P\tp\tA+,B-,C+\t2M1I,1M1D1M", "P\tq\tA+,B-\t*", "# c"]),
+              "C\tA\t+\tC\t+\t1\t2M1I\tID:Z:c1", "P\tp\tA+,B-,C+\t2M1I,1M1D1M", "P\tq\tA+,B-\t*", "# c",
+              # a circular path (as many overlaps as segments: the last link leads back to the first segment)
+              "P\tcirc\tA+,B-,C+\t2M1I,1M1D1M,*"]),
     ("gfa1", ["S\tA\tACGTAC\t" + TAGS_RAW, "S\tB\t*\tLN:i:5", "L\tA\t+\tB\t-\t02M1I\t" + TAGS_RAW, "L\tB\t-\tD\t+\t1M01D1M",
               "C\tA\t+\tB\t+\t1\t002M", "P\tp\tA+,B-\t02M1I", "P\tr\tA+,B-,D+\t*"]),
     ("gfa2", ["H\tVN:Z:2.0\tTS:i:10", "S\tA\t6\tACGTAC\t" + TAGS_CANON, "S\tB\t5\t*", "S\tC\t3\tACG",
@@ -68,7 +104,11 @@ FIXED = [
               "E\te3\tC+\tA-\t0\t3$\t1\t4\t2M1I", "E\t*\tB-\tA-\t3\t5$\t0\t2\t1I2M", "O\to\tA+ e1+ B+", "O\to2\tB- e1- A-"]),
     ("gfa1", ["S\tA\tACGTAC", "S\tB\t*\tLN:i:5", "L\tB\t-\tA\t-\t2M1D", "L\tB\t+\tA\t-\t1I2M\tID:Z:l2", "C\tB\t-\tA\t+\t0\t1M1I1M",
               "P\tp\tA+,B+\t1I2M", "P\tq\tB-,A-\t*"]),
+    # rGFA dialect: segments with the mandatory SN/SO/SR tags, links with none, some and all of the optional SR/L1/L2 tags
+    ("gfa1", ["S\ts1\tCTGAA\tSN:Z:chr1\tSO:i:0\tSR:i:0", "S\ts2\tACG\tSN:Z:chr1\tSO:i:5\tSR:i:0", "S\ts3\tTGGC\tSN:Z:alt\tSO:i:0\tSR:i:1\tta:A:x",
+              "L\ts1\t+\ts2\t+\t0M", "L\ts1\t+\ts3\t-\t0M\tSR:i:1", "L\ts3\t-\ts2\t+\t0M\tSR:i:1\tL1:i:5\tL2:i:4"]),
 ]
+FIXED_DIALECT = {7: "rgfa"}        # (index in FIXED -> dialect of the Gfa the document is loaded into; default "standard")
 
 NAMES = ["A", "B", "C", "D"]
 
@@ -151,6 +191,27 @@ def gen_doc(rng):
             L.append("P\tp1\t%s%s,%s%s\t%s" % (a, oa, b, ob, rng.pick(["*", c])))
         if rng.chance(0.2):
             L.append("P\tp2\t%s+\t*" % segs[0])
+        if rng.chance(0.3):
+            # a circular path: 2-3 steps (a segment may repeat, also as a self link) and as many overlaps as segments,
+            # the last link leading back to the first segment; the links it needs are added unless they are there
+            # already (then with the overlap of that link, or `*` when the link is written in the other direction)
+            inv = {"+": "-", "-": "+"}
+            cyc = [(rng.pick(segs), o()) for _ in range(rng.pick([2, 2, 3]))]
+            ov = []
+            for k in range(len(cyc)):
+                (a, oa), (b, ob) = cyc[k], cyc[(k + 1) % len(cyc)]
+                there = [l for l in links if l[:4] == (a, oa, b, ob)]
+                if there:
+                    ov.append(rng.pick(["*", there[0][4]]))
+                elif min((a, oa, b, ob), (b, inv[ob], a, inv[oa])) in seen:
+                    ov.append("*")
+                else:
+                    seen.add(min((a, oa, b, ob), (b, inv[ob], a, inv[oa])))
+                    c = rng.pick(["*", rnd_cigar(rng, raw)])
+                    links.append((a, oa, b, ob, c))
+                    L.append("L\t%s\t%s\t%s\t%s\t%s" % (a, oa, b, ob, c))
+                    ov.append(c)
+            L.append("P\tp3\t%s\t%s" % (",".join(a + oa for a, oa in cyc), ",".join(ov)))
         if rng.chance(0.3):
             L.append("# comment")
     else:
@@ -311,10 +372,52 @@ def gen_queued(rng):
     return L
 
 
+def gen_rgfa(rng):
+    """a GFA1 document of the rGFA dialect: segments with the mandatory SN/SO/SR tags, 0M links carrying a random subset of
+    the optional SR/L1/L2 tags; 22% are perturbed into something the rGFA validation refuses (a mandatory tag missing, a
+    tag of the wrong datatype, an overlap that is not 0M, a header or a path) -- the refusal has to be as stable as the
+    acceptance."""
+    segs = rng.sample(["s1", "s2", "s3", "s4"], rng.pick([2, 3, 4]))
+    o = lambda: rng.pick("+-")
+    inv = {"+": "-", "-": "+"}
+    L = []; off = 0
+    for k, s in enumerate(segs):
+        seq = "ACGTACGTAC"[:rng.pick([3, 5, 8])]
+        rank = 0 if k < 2 else rng.pick([0, 1])
+        L.append("S\t%s\t%s\tSN:Z:%s\tSO:i:%d\tSR:i:%d" % (s, seq, "chr1" if rank == 0 else "alt%d" % k, off if rank == 0 else 0, rank) +
+                 (rnd_tags(rng) if rng.chance(0.3) else ""))
+        off += len(seq)
+    seen = set(); nl = 0
+    for _ in range(rng.pick([1, 2, 3])):
+        a, b = rng.pick(segs), rng.pick(segs)
+        oa, ob = o(), o()
+        key = min((a, oa, b, ob), (b, inv[ob], a, inv[oa]))
+        if key in seen:
+            continue
+        seen.add(key); nl += 1
+        t = [x for x in ("SR:i:%d" % rng.pick([0, 1]), "L1:i:%d" % rng.pick([3, 5]), "L2:i:%d" % rng.pick([3, 5])) if rng.chance(0.4)]
+        L.append("\t".join(["L", a, oa, b, ob, "0M"] + t) + (rnd_tags(rng) if rng.chance(0.2) else ""))
+    r = rng.random()
+    if r < 0.06:
+        L[0] = L[0].replace("\tSO:i:", "\tso:i:")
+    elif r < 0.12:
+        L[-1] = L[-1] + ("\tL1:Z:5" if "\tL1:" not in L[-1] else "") if nl else L[-1].replace("\tSR:i:", "\tSR:Z:")
+    elif r < 0.17 and nl:
+        L[-1] = L[-1].replace("\t0M", "\t1M")
+    elif r < 0.22:
+        L.append(rng.pick(["H\tVN:Z:1.0", "P\tp1\t%s+\t*" % segs[0]]))
+    rng.shuffle(L)
+    return L
+
+
 def gen_case(rng, tier, i):
     if i % 12 == 11:
         return {"kind": "queued", "version": None, "lines": gen_queued(rng), "vlevel": rng.pick([0, 1, 1, 2, 3]),
                 "calls": [(rng.randrange(10 ** 6), rng.randrange(10 ** 6)) for _ in range(25)]}
+    if i % 12 == 5:
+        n = 40 if tier == "quick" else 200
+        return {"kind": "rgfa", "version": "gfa1", "dialect": "rgfa", "lines": gen_rgfa(rng), "vlevel": rng.pick([0, 1, 1, 2, 3]),
+                "calls": [[rng.randrange(10 ** 6), rng.randrange(10 ** 6)] for _ in range(n)]}
     ver, L = gen_doc(rng)
     n = 40 if tier == "quick" else 200
     return {"kind": "random", "version": ver, "lines": L, "vlevel": rng.pick([0, 0, 1, 2, 3]),
@@ -382,6 +485,69 @@ def is_value_object(gfapy, x):
     return False
 
 
+# ---------------------------------------------------------------------------------------------------- edits of results
+# Some read-only operations are documented to hand out a NEW object (Line.clone, Link.complement, CIGAR.complement).
+# The caller owns it: an edit of the result is an edit of the result only.  The edits below are applied to such a
+# result; what they do to the result is nobody's business here (every error is swallowed), the snapshot taken after
+# the call shows whether the original -- line, Gfa, alignment handed out earlier -- is still what it was.
+EDITS = ("delete every tag", "retype every tag", "edit every value in place")
+
+
+def edit_value(gfapy, v, depth=0):
+    """in-place edit of a field value: lengths of CIGAR operations, elements of lists/arrays, keys of JSON objects,
+    orientation of oriented identifiers"""
+    if depth > 3:
+        return
+    if isinstance(v, gfapy.CIGAR):
+        for op in v:
+            op.length += 1
+    elif isinstance(v, gfapy.CIGAR.Operation):
+        v.length += 1
+    elif isinstance(v, gfapy.OrientedLine):
+        if not isinstance(v.line, gfapy.Line):         # (an oriented *name*: the copy holds no references)
+            v.orient = "-" if v.orient == "+" else "+"
+    elif isinstance(v, dict):
+        for x in list(v.values()):
+            edit_value(gfapy, x, depth + 1)
+        v["zz"] = 1
+    elif isinstance(v, list):
+        for x in list(v):
+            edit_value(gfapy, x, depth + 1)
+        if v and all(isinstance(x, (int, float)) and not isinstance(x, bool) for x in v):
+            v.append(v[0])
+            v[0] = v[0] + 1
+
+
+def edited_complement(gfapy, cigar):
+    c = cigar.complement()
+    edit_value(gfapy, c)
+    for op in c:
+        if op.code == "M":
+            op.code = "X"
+    return str(c)
+
+
+def edit_copy(gfapy, c, mode):
+    def attempt(fn, *a):
+        try:
+            fn(*a)
+        except Exception:  # noqa -- the edit of the copy may be refused, or fail: not this property's business
+            pass
+    tags = list(c.tagnames)
+    if mode == "delete every tag":
+        for t in tags:
+            attempt(c.delete, t)
+        attempt(c.set, "nn", 1.5)
+    elif mode == "retype every tag":
+        for t in tags:
+            attempt(lambda: c.set_datatype(t, "i" if c.get_datatype(t) == "Z" else "Z"))
+        attempt(c.set, "nn", 1.5)
+    else:
+        for f in list(c.positional_fieldnames) + tags:
+            attempt(lambda: edit_value(gfapy, c.get(f)))
+    return c
+
+
 # ---------------------------------------------------------------------------------------------------- catalogue
 def catalogue(gfapy, g, held):
     """-> list of (entry name, thunk).  Building it touches no field value (only g.lines and record types)."""
@@ -422,6 +588,12 @@ def catalogue(gfapy, g, held):
     for d in ({"record_type": "S"}, {"record_type": "L", "from_orient": "+"}, {"name": "A"}, {"record_type": "E", "sid1": "A+"},
               {"record_type": "S", "ti": -5}, {"record_type": "P"}):
         add("Gfa.select(dict)", lambda d=d: g.select(dict(d)))
+    # the same criteria object asked again and again (name of a line that is there / is not there, with and without further
+    # criteria): the criteria are an argument, they are rendered in every snapshot like the value objects handed out
+    for d in ({"name": "A", "record_type": "S"}, {"record_type": "S", "name": "zz"}, {"name": "B"}, {"name": "s1", "SR": 0},
+              {"name": "e1", "record_type": "E"}, {"name": "l1", "from_orient": "+"}, {"name": "p1"}):
+        hold(held, "criteria of Gfa.select(same dict)", d)
+        add("Gfa.select(same dict)", lambda d=d: g.select(d))
     for s in segs:
         add("Gfa.segment_connected_component", lambda s=s: g.segment_connected_component(s))
         add("Gfa.is_cut_segment", lambda s=s: g.is_cut_segment(s))
@@ -442,6 +614,10 @@ def catalogue(gfapy, g, held):
         add(P + "is_connected", lambda l=l: l.is_connected())
         add(P + "validate", lambda l=l: l.validate())
         add(P + "clone", lambda l=l: l.clone())
+        # the copy is a line of its own ("this allows to edit the line before adding it"): whatever is done to it, the
+        # line it was taken from stays as it is
+        for mode in EDITS:
+            add(P + "clone, then %s of the copy" % mode, lambda l=l, mode=mode: edit_copy(gfapy, l.clone(), mode))
         add(P + "refstr", lambda l=l: l.refstr())
         add(P + "to_gfa1_s", lambda l=l: l.to_gfa1_s())
         add(P + "to_gfa2_s", lambda l=l: l.to_gfa2_s())
@@ -518,6 +694,9 @@ def catalogue(gfapy, g, held):
             add("L.complement", lambda l=l: hold(held, "L.complement", l.complement()))
             add("L.complement.overlap", lambda l=l: hold(held, "L.complement.overlap", l.complement().overlap))
             add("L.complement.complement", lambda l=l: l.complement().complement())
+            # the complement is a new, disconnected link: editing it (its overlap in place, its tags) leaves the link alone
+            for mode in EDITS:
+                add("L.complement, then %s of the result" % mode, lambda l=l, mode=mode: edit_copy(gfapy, l.complement(), mode))
             for o in ([x for x in links if x is not l][:2] + [l]):
                 add("L.is_complement", lambda l=l, o=o: l.is_complement(o))
                 add("L.is_eql", lambda l=l, o=o: l.is_eql(o))
@@ -556,6 +735,28 @@ def family(name):
     return name.split(".")[0].split("(")[0]
 
 
+CLAUSES = [("validation", ("validate", "is_rgfa")),
+           ("cloning", ("clone",)),
+           ("comparison", ("==", "diff")),
+           ("complement and alignment", ("complement", "is_eql", "is_same", "are_tags_eql", "compatible", "canonical", "length_on", "CIGAR.",
+                                         "Trace.", "Operation.")),
+           ("resolution", ("captured_", "induced_", "P.links", "P.segment_names", "P.overlaps", ".items", ".paths", ".sets", "is_circular",
+                           "is_linear")),
+           ("search", ("select", "Gfa.line(", "try_get_line", "Gfa.segment(", "try_get_segment", "custom_records_of_type",
+                       "fragments_for_external")),
+           ("topology", ("connected_component", "is_cut", "linear_path", "neighbours", "dovetails", "contain", "gaps", "relations", "other",
+                         "n_dead_ends", "edges", "internals", "fragments", "is_dovetail", "is_internal")),
+           ("conversion", ("str(", "repr(", "to_list", "to_str", "to_gfa", "field_to_s", "refstr"))]
+_CLAUSE = {}
+
+
+def clause(name):
+    """the clause of the property an entry belongs to (by its name; "reads" for the field, tag and attribute reads)"""
+    if name not in _CLAUSE:
+        _CLAUSE[name] = next((c for c, keys in CLAUSES if any(k in name for k in keys)), "reads")
+    return _CLAUSE[name]
+
+
 def hold(held, label, v):
     """remember value objects handed out by the library (to re-render them later and to call their methods)"""
     gfapy = lib.import_gfapy()
@@ -579,6 +780,7 @@ def value_entries(gfapy, held):
         if isinstance(o, gfapy.CIGAR):
             V.append(("CIGAR.complement", lambda o=o: hold(held, "CIGAR.complement", o.complement())))
             V.append(("CIGAR.complement.complement", lambda o=o: o.complement().complement()))
+            V.append(("CIGAR.complement, then edit every operation of the result", lambda o=o: edited_complement(gfapy, o)))
             V.append(("CIGAR.length_on_reference", lambda o=o: o.length_on_reference()))
             V.append(("CIGAR.length_on_query", lambda o=o: o.length_on_query()))
             V.append(("CIGAR.validate", lambda o=o: o.validate()))
@@ -628,6 +830,9 @@ def snapshot(gfapy, g, held):
         parts.append(("names", repr(sorted(str(n) for n in g.names))))
     except Exception as e:
         parts.append(("lines", "<raised %s>" % e.__class__.__name__))
+    # the table of the rGFA tags is a public attribute of the class: what is written there decides the later answers of
+    # validate() of every Gfa of the process
+    parts.append(("Gfa.RGFA_TAGS", repr(getattr(gfapy.Gfa, "RGFA_TAGS", None))))
     for i, (lab, o) in enumerate(held):
         if isinstance(o, (gfapy.OrientedLine, gfapy.SegmentEnd)):
             continue       # rendered through the line they point to
@@ -649,6 +854,39 @@ def run_call(gfapy, name, thunk):
         return ("foreign", "%s@%s" % (e.__class__.__name__, M.innermost_gfapy_frame(e)))
 
 
+RE_TO_GFA2 = re.compile(r"^(Gfa|L|C|P)\.to_gfa2(_s)?$")
+RE_ID_TAG = re.compile(r"\tID:Z:[0-9]+(?=\t|$)")
+
+
+def beyond_id_assignment(b, a, vlevel):
+    """None when the change between two snapshots is what the open finding `to_gfa2-assigns-id` does and nothing else:
+    lines got a generated identifier (`ID:Z:<n>`) and were registered again under it, so that the order of the lines and
+    the set of names change too.  Otherwise the key of a part of the snapshot that this does not explain."""
+    cn = M.canon_text if vlevel == 0 else (lambda t: t)         # (at level 0 the conversion also reads delayed fields)
+    text = lambda d: {k: cn(RE_ID_TAG.sub("", v)) for k, v in d.items() if k.startswith("line")}
+    tb, ta = text(b), text(a)
+    if sorted(tb.values()) != sorted(ta.values()):
+        left = list(tb.values())
+        for k in sorted(ta, key=lambda k: (len(k), k)):
+            if ta[k] in left:
+                left.remove(ta[k])
+            else:
+                return k
+        return sorted(tb)[0]
+    for k in list(a) + [k for k in b if k not in a]:
+        if k.startswith("line") or k == "gfa" or a.get(k) == b.get(k):
+            continue
+        if k == "names":
+            try:
+                nb, na = ast.literal_eval(b[k]), ast.literal_eval(a[k])
+            except Exception:  # noqa
+                return k
+            if set(nb) <= set(na) and all(x.isdigit() for x in set(na) - set(nb)):
+                continue
+        return k
+    return None
+
+
 def compare(F, vlevel, name, before, after, where):
     if before == after:
         return
@@ -658,19 +896,28 @@ def compare(F, vlevel, name, before, after, where):
     lazy = vlevel == 0 and all((not x.startswith("held")) and M.canon_text(b.get(x, "")) == M.canon_text(a.get(x, "")) for x in changed)
     if lazy:
         F.append("lazy-spelling: %s (%s) rewrote %r as %r" % (name, where, b.get(k), a.get(k)))
-    else:
-        F.append("mutation[%s]: (%s) %s changed from %r to %r" % (name, where, k, b.get(k), a.get(k)))
+        return
+    if RE_TO_GFA2.match(name):
+        # the open finding `to_gfa2-assigns-id` has the signature mutation[<entry>]: whatever else the conversion does to the
+        # lines it converts (resolving a path on the way, ...) is reported under a signature of its own
+        k2 = beyond_id_assignment(b, a, vlevel)
+        if k2 is not None:
+            F.append("mutation[%s, beyond assigning IDs]: (%s) %s changed from %r to %r" % (name, where, k2, b.get(k2), a.get(k2)))
+            return
+    F.append("mutation[%s]: (%s) %s changed from %r to %r" % (name, where, k, b.get(k), a.get(k)))
 
 
 def oracle(case):
     gfapy = lib.import_gfapy()
     if case["kind"] == "sweep":
         ver, L = FIXED[case["fixed"]]
+        dialect = FIXED_DIALECT.get(case["fixed"], "standard")
     else:
         ver, L = case["version"], case["lines"]
+        dialect = case.get("dialect", "standard")
     v = case["vlevel"]
     try:
-        g = gfapy.Gfa(vlevel=v, version=ver)
+        g = gfapy.Gfa(vlevel=v, version=ver, dialect=dialect)
         for l in L:
             g.add_line(l)
     except gfapy.Error:
@@ -679,7 +926,7 @@ def oracle(case):
         return ["build-failed: %s@%s" % (e.__class__.__name__, M.innermost_gfapy_frame(e))]
     F = []
     held = []
-    where = "vlevel=%d %s" % (v, ver)
+    where = "vlevel=%d %s%s" % (v, ver, "" if dialect == "standard" else " " + dialect)
     try:
         C = catalogue(gfapy, g, held)
     except Exception as e:
@@ -731,6 +978,17 @@ def oracle(case):
             V = value_entries(gfapy, held)
             if V and a % 4 == 0:
                 name, thunk = V[b % len(V)]
+            elif a % 4 == 3:
+                # a clause of the property first (validation, cloning, searches, ...), then one of the distinct entries of
+                # the clause, then one of the lines/objects it applies to: Gfa.validate is asked as often as the
+                # validation of some field of some line
+                byclause = {}
+                for e in C + V:
+                    byclause.setdefault(clause(e[0]), {}).setdefault(e[0], []).append(e)
+                cl = sorted(byclause)
+                names = byclause[cl[(a // 4) % len(cl)]]
+                inst = names[sorted(names)[(b // 7) % len(names)]]
+                name, thunk = inst[(b // 1009) % len(inst)]
             elif a % 4 == 1:
                 # a family first, then one of its entries: the few entries of a group line are not drowned by the
                 # many entries of the segments
